@@ -69,6 +69,8 @@ pub enum Sel {
 #[derive(Serialize, Deserialize, Clone, Debug, PartialEq)]
 pub enum ItemKind {
     Cmd(ActCmd),
+    /// A command naming its parent by the right id and a max cut that is off by `delta`.
+    CmdBadCut(ActCmd, i8),
     Merge(Sel),
     DupInit,
     ForeignInit,
